@@ -56,3 +56,7 @@ pub mod repository;
 pub mod sequence;
 
 pub use self::{record::Record, repository::Repository};
+
+#[cfg(kani)]
+#[path = "/verif/harness/fasta/root.rs"]
+mod verif_kani;
